@@ -93,7 +93,7 @@ func genResync(r *vh.Rng) jobctl.History {
 		s.Tasks = append(s.Tasks, t)
 		s.Min += t.Replicas
 	}
-	s.MaxRetry = 3
+	s.MaxRetry = DirectedTag
 	h := jobctl.History{Spec: s, Status: jobctl.Status{Phase: 4, Min: s.Min, TscNil: true}, Pg: i64p(3)}
 	for _, t := range s.Tasks {
 		for i := int64(0); i < t.Replicas; i++ {
@@ -148,7 +148,7 @@ func genVersionBump(r *vh.Rng) jobctl.History {
 		s.Tasks = append(s.Tasks, t)
 		s.Min += t.Replicas
 	}
-	s.MaxRetry = 3
+	s.MaxRetry = DirectedTag
 	h := jobctl.History{Spec: s, Status: jobctl.Status{Phase: 4, Version: int64(r.Intn(2)), Min: s.Min, TscNil: true}, Pg: i64p(3)}
 	for _, t := range s.Tasks {
 		for i := int64(0); i < t.Replicas; i++ {
@@ -190,6 +190,14 @@ func genVersionBump(r *vh.Rng) jobctl.History {
 		h.Ops = append(h.Ops, deliver...)
 	}
 	return h
+}
+
+func totalReplicas(s jobctl.Spec) int64 {
+	n := int64(0)
+	for _, t := range s.Tasks {
+		n += t.Replicas
+	}
+	return n
 }
 
 func genHistory(r *vh.Rng, stream string) jobctl.History {
@@ -387,7 +395,8 @@ func gen(rng *vh.Rng, n int, emit func(id string, sel int, in []int64, kind stri
 		h := genResync(r)
 		w := &jobctl.W{}
 		w.History(h)
-		emit(fmt.Sprintf("hist-resync-%d", i), 1, w.T, "history/resync", true,
+		emit(fmt.Sprintf("hist-resync-%d", i), 1, w.T, "history/resync", totalReplicas(h.Spec) >= 2, // the rule's predicate; law 221 requires law 201's guard at the last sync
+			
 			map[string]any{"tasks": len(h.Spec.Tasks), "initial_pods": len(h.Pods), "ops": len(h.Ops)})
 	}
 	// old pods' delete events delivered after the kill bumped the job version
@@ -396,7 +405,8 @@ func gen(rng *vh.Rng, n int, emit func(id string, sel int, in []int64, kind stri
 		h := genVersionBump(r)
 		w := &jobctl.W{}
 		w.History(h)
-		emit(fmt.Sprintf("hist-versionbump-%d", i), 1, w.T, "history/versionbump", true,
+		emit(fmt.Sprintf("hist-versionbump-%d", i), 1, w.T, "history/versionbump", totalReplicas(h.Spec) >= 2, // the rule's predicate; law 221 requires law 201's guard at the last sync
+			
 			map[string]any{"tasks": len(h.Spec.Tasks), "initial_pods": len(h.Pods), "ops": len(h.Ops)})
 	}
 }
